@@ -21,6 +21,8 @@ pub const NSLOT: usize = 12;
 
 pub struct Node {
     pub gen: usize,
+    /// free-running mode only: meet the destructor of the partner node before going on
+    pub rdv: u8,
     pub id: usize,
     pub next: [AtomicRc<Node>; NFIELD],
     pub wnext: AtomicWeak<Node>,
@@ -51,8 +53,19 @@ unsafe impl RcObject for Node {
         }
     }
 }
+pub static RDV: [AtomicUsize; 8] = [Z; 8];
 impl Drop for Node {
     fn drop(&mut self) {
+        if self.rdv > 0 {
+            let r = &RDV[(self.rdv - 1) as usize % 8];
+            let me = r.fetch_add(1, SeqCst);
+            let target = (me / 2 + 1) * 2;
+            let mut spins = 0;
+            while r.load(SeqCst) < target && spins < 20_000 {
+                std::hint::spin_loop();
+                spins += 1;
+            }
+        }
         if self.id < MAXOBJ && self.gen == GEN.load(SeqCst) {
             if NDROP[self.id].fetch_add(1, SeqCst) == 0 {
                 DROP_SEQ[self.id].store(alloc::SEQ.fetch_add(1, SeqCst), SeqCst);
@@ -66,7 +79,7 @@ fn new_node(next0: Rc<Node>) -> Rc<Node> {
     assert!(id < MAXOBJ);
     NPOP[id].store(0, SeqCst);
     NDROP[id].store(0, SeqCst);
-    let rc = Rc::new(Node { gen: GEN.load(SeqCst), id, next: [AtomicRc::from(next0), AtomicRc::null()], wnext: AtomicWeak::null() });
+    let rc = Rc::new(Node { gen: GEN.load(SeqCst), rdv: 0, id, next: [AtomicRc::from(next0), AtomicRc::null()], wnext: AtomicWeak::null() });
     register(id, verif::rc_word(&rc), rc.as_ref().unwrap());
     rc
 }
@@ -74,6 +87,100 @@ fn register(id: usize, word: usize, payload: &Node) {
     let (addr, _, _) = verif::split_word::<Node>(word);
     alloc::track(id, addr);
     PAYLOAD[id].store(payload as *const Node as usize, SeqCst);
+}
+
+/// Free-running mode (no scheduler): `pairs` triples P1 -> S <- P2, the parents handed to two real threads that
+/// drop them and collect concurrently; returns `(objects, max npop, max ndrop, max nfree, order ok, uaf, leaked)`.
+pub fn free_run_dag(pairs: usize, rounds: usize) -> (usize, usize, usize, usize, bool, bool, usize) {
+    alloc::release_all(false);
+    alloc::enable(true);
+    GEN.fetch_add(1, SeqCst);
+    NEXT_ID.store(1, SeqCst);
+    for r in RDV.iter() {
+        r.store(0, SeqCst);
+    }
+    let gen = GEN.load(SeqCst);
+    const GROUPS: usize = 4;
+    let mk = |rdv: u8, next: Rc<Node>| -> Rc<Node> {
+        let id = NEXT_ID.fetch_add(1, SeqCst);
+        NPOP[id].store(0, SeqCst);
+        NDROP[id].store(0, SeqCst);
+        let rc = Rc::new(Node { gen, rdv, id, next: [AtomicRc::from(next), AtomicRc::null()], wnext: AtomicWeak::null() });
+        register(id, verif::rc_word(&rc), rc.as_ref().unwrap());
+        rc
+    };
+    // GROUPS independent pairs of threads, each pair owning `pairs` triples
+    let mut work: Vec<Vec<Rc<Node>>> = Vec::new();
+    for g in 0..GROUPS {
+        let mut left: Vec<Rc<Node>> = Vec::new();
+        let mut right: Vec<Rc<Node>> = Vec::new();
+        for _ in 0..pairs {
+            let s = mk(0, Rc::null());
+            let s2 = s.clone();
+            left.push(mk(g as u8 + 1, s));
+            right.push(mk(g as u8 + 1, s2));
+        }
+        work.push(left);
+        work.push(right);
+    }
+    let n = alloc::ntracked();
+    let go = std::sync::Arc::new(std::sync::Barrier::new(2 * GROUPS));
+    let hs: Vec<_> = work
+        .into_iter()
+        .map(|mine| {
+            let go = go.clone();
+            std::thread::spawn(move || {
+                go.wait();
+                for (i, rc) in mine.into_iter().enumerate() {
+                    drop(rc);
+                    if i % 4 == 3 {
+                        let g = circ::cs();
+                        g.flush();
+                    }
+                }
+                let _ = rounds;
+                go.wait();
+                // all threads collect side by side until everything is gone: the two bags with the two
+                // parents of each child tend to be popped by different threads at the same time
+                for pass in 0..3000 {
+                    let g = circ::cs();
+                    g.flush();
+                    drop(g);
+                    if pass % 4 == 3 && (1..=n).all(|id| alloc::nfree(id) > 0) {
+                        break;
+                    }
+                }
+            })
+        })
+        .collect();
+    for h in hs {
+        let _ = h.join();
+    }
+    // the queue also holds the collector's own garbage (one more bag per popped bag under seal-on-defer):
+    // keep collecting until every object is gone, or give up after many passes
+    for pass in 0..4000 {
+        let g = circ::cs();
+        g.flush();
+        drop(g);
+        if pass % 8 == 7 && (1..=n).all(|id| alloc::nfree(id) > 0) {
+            break;
+        }
+    }
+    let (mut mp, mut md, mut mf, mut ord, mut uaf, mut leaked) = (0, 0, 0, true, false, 0);
+    for id in 1..=n {
+        let (np, nd, nf) = (NPOP[id].load(SeqCst), NDROP[id].load(SeqCst), alloc::nfree(id));
+        mp = mp.max(np);
+        md = md.max(nd);
+        mf = mf.max(nf);
+        let (ps, ds, fs) = (POP_SEQ[id].load(SeqCst), DROP_SEQ[id].load(SeqCst), alloc::free_seq(id));
+        ord &= (nd == 0 || (np > 0 && ps < ds)) && (nf == 0 || (nd > 0 && ds < fs));
+        if nf == 0 {
+            leaked += 1;
+        } else {
+            uaf |= unsafe { verif::peek_state::<Node>(alloc::addr_of(id)) } != alloc::POISON;
+        }
+    }
+    (n, mp, md, mf, ord, uaf, leaked)
 }
 
 pub fn cells() -> &'static Vec<AtomicRc<Node>> {
@@ -339,7 +446,7 @@ pub fn exec(st: &mut WState, op: Op) -> Res {
             let id = NEXT_ID.fetch_add(1, SeqCst);
             NPOP[id].store(0, SeqCst);
             NDROP[id].store(0, SeqCst);
-            let mk = || Node { gen: GEN.load(SeqCst), id, next: [AtomicRc::null(), AtomicRc::null()], wnext: AtomicWeak::null() };
+            let mk = || Node { gen: GEN.load(SeqCst), rdv: 0, id, next: [AtomicRc::null(), AtomicRc::null()], wnext: AtomicWeak::null() };
             let v: Vec<Rc<Node>> = match n {
                 0 => {
                     alloc::capture_next(verif::block_layout::<Node>().1, id);
@@ -365,7 +472,7 @@ pub fn exec(st: &mut WState, op: Op) -> Res {
             let id = NEXT_ID.fetch_add(1, SeqCst);
             NPOP[id].store(0, SeqCst);
             NDROP[id].store(0, SeqCst);
-            let node = Node { gen: GEN.load(SeqCst), id, next: [AtomicRc::null(), AtomicRc::null()], wnext: AtomicWeak::null() };
+            let node = Node { gen: GEN.load(SeqCst), rdv: 0, id, next: [AtomicRc::null(), AtomicRc::null()], wnext: AtomicWeak::null() };
             alloc::capture_next(verif::block_layout::<Node>().1, id);
             let iter = Rc::new_many_iter(node, n);
             let addr = alloc::captured();
